@@ -54,6 +54,7 @@ type childSpec struct {
 	Result     string
 	HashDelay  int
 	FsizeLimit int64 // >0: RLIMIT_FSIZE of the child: writes beyond this file offset fail (disk-full like fault)
+	Segment    int   // >0: a read on the transport returns at most this many bytes (records arrive in pieces)
 }
 
 type childResult struct {
@@ -115,7 +116,9 @@ func childMain(sp childSpec) int {
 		return 3
 	}
 	tap := &verifkit.Tap{}
-	pair, err := p.newPair(func(int) verifkit.MemOptions { return verifkit.MemOptions{QUICVisibility: sp.QUICVis, Tap: tap} })
+	pair, err := p.newPair(func(int) verifkit.MemOptions {
+		return verifkit.MemOptions{QUICVisibility: sp.QUICVis, Tap: tap, Segment: sp.Segment}
+	})
 	if err != nil {
 		return 3
 	}
